@@ -114,7 +114,7 @@ Qed.
 Definition c06_impl (a : trait_attr) (h : head) (t : item_trait) : item_impl :=
   let ca := has_async (map snd (trait_sigs t)) in
   mkImpl (filter is_async_trait (h_attrs h)) false
-         (mkGen true (p_of_list (impl_t_param false :: p_items (g_params (t_gen t))))
+         (mkGen true (p_of_list (trait_impl_params (p_items (g_params (t_gen t)))))
                 (Some (p_of_list (mk_pred (c06_bound a ca (t_name t) (t_gen t)) :: where_items (t_gen t)))))
          (Some ([TId (t_name t)] ++ trait_args (t_gen t)))
          impl_path_toks
@@ -181,10 +181,13 @@ Proof. apply impl_fns_c06_items. Qed.
 
 Lemma c06_impl_header a h t :
   i_self (c06_impl a h t) = impl_path_toks /\
-  first_param_toks (i_gen (c06_impl a h t)) = expected_impl_t false /\
+  app_param_toks (i_gen (c06_impl a h t)) = expected_impl_t false /\
   first_where_toks (i_gen (c06_impl a h t)) = c06_bound a (has_async (map snd (trait_sigs t))) (t_name t) (t_gen t) /\
   i_trait (c06_impl a h t) = Some ([TId (t_name t)] ++ trait_args (t_gen t)).
-Proof. repeat split. Qed.
+Proof.
+  repeat split. unfold app_param_toks, c06_impl. cbn [i_gen g_params p_items p_of_list].
+  fold nonlife. rewrite filter_nonlife_trait_impl_params. reflexivity.
+Qed.
 
 (** ** the view the checker evaluates (shared by C06 and the trait side of C07) *)
 Lemma c06_gen_holds w v attr h t items a0 :
